@@ -10,7 +10,7 @@ using namespace sys;
 //   0x0000 br 0x0100 | 0x0006 int0: reti | 0x000E int1: retic | 0x0016 int2: br 0x0016 (stays)
 //   vectored handlers: irq[0] -> 0x0200: reti, irq[1] -> 0x0210: retic (context switch), irq[2] -> 0x0220: reti
 //   main line A: 0x0100 br 0x0100        main line B: 0x0100 rep 2 ; nop ; br 0x0100
-enum Ins { I_BR, I_REP, I_NOP, I_RETI, I_RETIC, I_BAD };
+enum Ins { I_BR, I_REP, I_NOP, I_RETI, I_RETIC, I_BRR, I_BAD };
 
 struct Model { // the statement, plus a 5-instruction interpreter for the fixed program
     u16 request, en[3], ven;
@@ -22,6 +22,7 @@ struct Model { // the statement, plus a 5-instruction interpreter for the fixed 
     u32 pc;
     u16 sp;
     u16 stack[8]; // words 0x07F8..0x07FF
+    u32 tcnt;     // timer 0 as a one-shot source of IRQ 10: cycles until it fires (0 = idle)
     bool operator==(const Model& o) const {
         return std::memcmp(this, &o, sizeof(Model)) == 0;
     }
@@ -41,7 +42,7 @@ inline std::string Show(const Model& m) {
 
 struct Setup {
     int irq[3];    // the IRQ alphabet of this run
-    int main_line; // 0: br self, 1: rep 2; nop; br
+    int main_line; // 0: br self, 1: rep 2; nop; br, 2: brr -1 (the idle loop the interpreter fast-forwards)
     u32 Vector(int q) const {
         for (int i = 0; i < 3; ++i)
             if (irq[i] == q)
@@ -65,6 +66,11 @@ struct Setup {
             if (pc == 0x0100) {
                 operand = 0x0100;
                 return I_BR;
+            }
+        } else if (main_line == 2) {
+            if (pc == 0x0100) {
+                operand = 0x0100;
+                return I_BRR;
             }
         } else {
             if (pc == 0x0100) {
@@ -156,7 +162,7 @@ struct RefSem {
             }
         }
         switch (ins) {
-        case I_BR: m.pc = operand; break;
+        case I_BR: case I_BRR: m.pc = operand; break;
         case I_REP: m.rep = 1; m.repc = (u16)operand; break;
         case I_NOP: break;
         case I_RETI: PopPC(m); m.ie = 1; break;
@@ -187,18 +193,21 @@ struct RefSem {
                     ContextSwitch(m);
             }
         }
+        // the peripherals tick at the end of the cycle: a one-shot timer raises IRQ 10 when it goes from 1 to 0
+        if (m.tcnt > 0 && --m.tcnt == 0)
+            Trigger(m, 1u << 10);
         return true;
     }
 };
 
-enum EvKind { E_TRIG, E_ACK, E_ROUTE, E_IE, E_IM, E_IMV, E_IC, E_CPC, E_STEP };
+enum EvKind { E_TRIG, E_ACK, E_ROUTE, E_IE, E_IM, E_IMV, E_IC, E_CPC, E_STEP, E_RUN, E_WORD, E_TIMER };
 struct Event {
     int kind;
     int a;   // line / index
     u16 val; // bits / value
 };
 inline std::string Show(const Event& e) {
-    static const char* n[] = {"trigger", "acknowledge", "route", "ie", "im", "imv", "ic", "cpc", "step"};
+    static const char* n[] = {"trigger", "acknowledge", "route", "ie", "im", "imv", "ic", "cpc", "step", "run", "write-word(0 st0,1 st2,2 mod3,3 stt2,4 icr)", "arm-timer0"};
     return Fmt("%s(%d,%04X)", n[e.kind], e.a, e.val);
 }
 
@@ -207,6 +216,7 @@ struct Rec { // what is needed to put the real machine back into a state
     CoreSnap core;
     IcuSnap icu;
     u16 stack[8];
+    TimerSnap t0;
 };
 
 struct Engine {
@@ -230,6 +240,8 @@ struct Engine {
         m.SetProg(0x0200, 0x45C0), m.SetProg(0x0210, 0x45D0), m.SetProg(0x0220, 0x45C0);
         if (su.main_line == 0) {
             m.SetProg(0x0100, 0x4180), m.SetProg(0x0101, 0x0100);
+        } else if (su.main_line == 2) {
+            m.SetProg(0x0100, 0x57F0); // brr -1
         } else {
             m.SetProg(0x0100, 0x0C02), m.SetProg(0x0101, 0x0000), m.SetProg(0x0102, 0x4180), m.SetProg(0x0103, 0x0100);
         }
@@ -253,6 +265,7 @@ struct Engine {
         base.regs = r0;
         base.core = m.SaveCore();
         base.icu = m.SaveIcu();
+        base.t0 = Machine::SaveTimer(m.impl->timer[0]);
         for (int i = 0; i < 8; ++i)
             base.stack[i] = 0;
     }
@@ -260,6 +273,7 @@ struct Engine {
         m.regs() = r.regs;
         m.LoadCore(r.core);
         m.LoadIcu(r.icu);
+        Machine::LoadTimer(m.impl->timer[0], r.t0);
         for (int i = 0; i < 8; ++i)
             m.SetDataWord(0x07F8 + i, r.stack[i]);
     }
@@ -268,6 +282,7 @@ struct Engine {
         r.regs = m.regs();
         r.core = m.SaveCore();
         r.icu = m.SaveIcu();
+        r.t0 = Machine::SaveTimer(m.impl->timer[0]);
         for (int i = 0; i < 8; ++i)
             r.stack[i] = m.DataWord(0x07F8 + i);
         return r;
@@ -304,6 +319,7 @@ struct Engine {
         x.imv_sh = (u8)c.imv;
         for (int i = 0; i < 8; ++i)
             x.stack[i] = r.stack[i];
+        x.tcnt = r.t0.counter;
         return x;
     }
 
@@ -320,6 +336,19 @@ struct Engine {
         case E_IC: r.ic[e.a] = e.val; break;
         case E_CPC: r.cpc = e.val; break;
         case E_STEP: t.Run(1); break;
+        case E_RUN: t.Run(e.val); break;
+        case E_TIMER:
+            t.MMIOWrite(0x24, e.val), t.MMIOWrite(0x26, 0), t.MMIOWrite(0x20, 1 << 10); // single mode, restart
+            break;
+        case E_WORD: // a whole status/config word written the way mov/pop do it
+            switch (e.a) {
+            case 0: r.Set<T::st0>(e.val); break;
+            case 1: r.Set<T::st2>(e.val); break;
+            case 2: r.Set<T::mod3>(e.val); break;
+            case 3: r.Set<T::stt2>(e.val); break;
+            default: r.Set<T::icr>(e.val); break;
+            }
+            break;
         }
         return true;
     }
@@ -334,6 +363,28 @@ struct Engine {
         case E_IC: x.ic[e.a] = (u8)e.val; break;
         case E_CPC: x.cpc = (u8)e.val; break;
         case E_STEP: return sem.Step(x);
+        case E_RUN:
+            for (int k = 0; k < e.val; ++k)
+                if (!sem.Step(x))
+                    return false;
+            break;
+        case E_TIMER: x.tcnt = e.val; break;
+        case E_WORD: // the documented layouts: only the enable/mask/config bits are writable, request bits are read-only
+            switch (e.a) {
+            case 0: x.ie = e.val >> 1 & 1, x.im[0] = e.val >> 2 & 1, x.im[1] = e.val >> 3 & 1; break;
+            case 1: x.im[2] = e.val >> 6 & 1; break;
+            case 2:
+                for (int i = 0; i < 3; ++i)
+                    x.ic[i] = e.val >> (1 + i) & 1, x.im[i] = e.val >> (8 + i) & 1;
+                x.ie = e.val >> 7 & 1, x.imv = e.val >> 11 & 1, x.cpc = e.val >> 14 & 1;
+                break;
+            case 3: break;
+            default:
+                for (int i = 0; i < 3; ++i)
+                    x.ic[i] = e.val >> (1 + i) & 1;
+                break;
+            }
+            break;
         }
         return true;
     }
@@ -363,7 +414,7 @@ struct Engine {
             what = "context";
         else
             what = "other";
-        static const char* n[] = {"trigger", "acknowledge", "route", "ie", "im", "imv", "ic", "cpc", "step"};
+        static const char* n[] = {"trigger", "acknowledge", "route", "ie", "im", "imv", "ic", "cpc", "step", "run", "write-word(0 st0,1 st2,2 mod3,3 stt2,4 icr)", "arm-timer0"};
         int pend = before.ip[0] + before.ip[1] + before.ip[2] + before.ipv + before.lat[0] + before.lat[1] + before.lat[2] + before.latv;
         return Fmt("%s:%s:ie=%u,rep=%u,pending=%d", n[e.kind], what.c_str(), before.ie, before.rep, pend > 2 ? 2 : pend);
     }
@@ -491,6 +542,15 @@ inline std::vector<Event> FullAlphabet(const Setup& su) {
             ev.push_back({E_IC, i, v});
         }
     }
+    ev.push_back({E_RUN, 0, 3});
+    ev.push_back({E_WORD, 0, 0x000E}), ev.push_back({E_WORD, 0, 0x0000});
+    ev.push_back({E_WORD, 1, 0xE040}), ev.push_back({E_WORD, 1, 0x0000});
+    ev.push_back({E_WORD, 2, 0x4F8E}), ev.push_back({E_WORD, 2, 0x0000});
+    ev.push_back({E_WORD, 3, 0x000F});
+    ev.push_back({E_WORD, 4, 0x000E});
+    if (su.irq[0] == 10 || su.irq[1] == 10 || su.irq[2] == 10)
+        for (u16 k : {(u16)1, (u16)2, (u16)3})
+            ev.push_back({E_TIMER, 0, k});
     return ev;
 }
 
@@ -604,15 +664,17 @@ inline void Run(const Args& args, Result& res) {
     };
     std::vector<Job> jobs;
     for (auto& t : triples)
-        for (int ml = 0; ml < 2; ++ml)
+        for (int ml = 0; ml < 3; ++ml)
             jobs.push_back({t, ml, 1, 0});
     // remaining indices as single-IRQ rotations so that all 16 are exercised (quick tier)
     if (!th)
         for (int q : {1, 2, 3, 4, 6, 8, 12})
             jobs.push_back({{q, (q + 5) & 15, (q + 9) & 15}, 0, 3, 0});
     int l2_shards = 16;
-    for (int s = 0; s < l2_shards; ++s)
+    for (int s = 0; s < l2_shards; ++s) {
         jobs.push_back({{10, 14, 3}, 0, 2, s});
+        jobs.push_back({{10, 14, 3}, 2, 2, s});
+    }
     u64 l2_configs = th ? 4096 : 1024;
     std::vector<std::string> labels;
     RunPool((int)jobs.size(),
@@ -630,6 +692,8 @@ inline void Run(const Args& args, Result& res) {
                     // L2: every fixed routing/mask configuration of a 2-IRQ alphabet, dynamic events to fixpoint
                     std::vector<Event> dyn;
                     dyn.push_back({E_STEP, 0, 0});
+                    dyn.push_back({E_RUN, 0, 3});
+                    dyn.push_back({E_TIMER, 0, 1}), dyn.push_back({E_TIMER, 0, 2});
                     for (int i = 0; i < 2; ++i) {
                         dyn.push_back({E_TRIG, 0, (u16)(1u << su.irq[i])});
                         dyn.push_back({E_ACK, 0, (u16)(1u << su.irq[i])});
@@ -676,14 +740,15 @@ inline void Run(const Args& args, Result& res) {
             res);
     Wiring(res);
     res.rule = "BFS over the real ICU + interpreter + register file through the Teakra facade; events: software trigger (one and two "
-               "IRQs), acknowledge of every subset, routing of every subset to each of the 4 lines, ie/im/imv/ic/cpc writes, one "
-               "instruction boundary (Run(1)) of a fixed program (main line: self-branch, or rep 2;nop; handlers reti / retic / "
-               "staying); after every event the projection of the real machine (request, routing, latches, ip/im/ie/ic, pc, sp, "
+               "IRQs), acknowledge of every subset, routing of every subset to each of the 4 lines, ie/im/imv/ic/cpc writes, whole-word "
+               "writes of st0/st2/mod3/stt2/icr (incl. ones in the read-only request bits), arming timer 0 as a one-shot source that fires inside a later "
+               "Run, one instruction boundary (Run(1)) or three (Run(3)) "
+               "of a fixed program (main line: two-word self-branch, rep 2;nop, or the brr -1 idle loop; handlers reti / retic / staying); after every event the projection of the real machine (request, routing, latches, ip/im/ie/ic, pc, sp, "
                "stack words, repeat state, banked im) must equal the reference interrupt model; non-trivial = transition that "
                "changes the projected state; plus the wiring check of the nine peripheral sources";
-    res.bound = Fmt("L1: full alphabet (~60 events) to depth %d for %zu IRQ triples x 2 main lines (all 16 IRQ indices appear); "
-                    "L2: %llu of the 4096 fixed routing/mask configurations of a 2-IRQ alphabet, each explored to fixpoint over "
-                    "trigger/acknowledge/ie/step; interrupt nesting bounded at 2",
+    res.bound = Fmt("L1: full alphabet (~60 events) to depth %d for %zu IRQ triples x 3 main lines (all 16 IRQ indices appear); "
+                    "L2: %llu of the 4096 fixed routing/mask configurations of a 2-IRQ alphabet, each explored to fixpoint (2 main lines) over "
+                    "trigger/acknowledge/ie/step/run(3)/one-shot timer; interrupt nesting bounded at 2",
                     depth, triples.size(), (unsigned long long)l2_configs);
     res.assumptions = {"interrupt nesting deeper than 2 is not expanded (counted in coverage)",
                        "the context store is observed through the banked im/imv it exchanges (its full effect is C08's subject)"};
